@@ -582,7 +582,8 @@ impl DecodeBeatmap for HitObjects {
             y: y.parse_with_limits(MAX_COORDINATE_VALUE as f32)? as i32 as f32,
         };
 
-        let start_time_raw = f64::parse(start_time)?;
+        // `-0` is the same point in time as `0` but would be ordered before it
+        let start_time_raw = f64::parse(start_time)? + 0.0;
         let start_time = start_time_raw;
         let mut hit_object_type: HitObjectType = kind.parse()?;
 
